@@ -115,10 +115,15 @@ func (s Stmt) src(n names) string {
 		}
 		return out
 	case "recur":
-		if s.PassK {
-			return fmt.Sprintf("recur(%s + %d, k: %s + 1)", n.i, s.Step, n.k)
+		guard := ""
+		if s.Guarded {
+			// a step may leave the iterator where it is (the captured variable decides)
+			guard = fmt.Sprintf(" if c > %d", s.GuardN)
 		}
-		return fmt.Sprintf("recur(%s + %d)", n.i, s.Step)
+		if s.PassK {
+			return fmt.Sprintf("recur(%s + %d, k: %s + 1)%s", n.i, s.Step, n.k, guard)
+		}
+		return fmt.Sprintf("recur(%s + %d)%s", n.i, s.Step, guard)
 	case "mark":
 		return fmt.Sprintf("%q.p", s.Tag)
 	}
@@ -130,6 +135,7 @@ type Body struct {
 	Stmts    []Stmt
 	Implicit bool // no declared parameters: the body reads `\` and `\k`
 	Origin   int  // where the literal is evaluated (see origins)
+	Factory  bool // the literal is the second product of a factory whose parameter is the keyword default
 }
 
 // origins: the literal written at top level, or evaluated inside a function, a method, or another iterator's body
@@ -147,6 +153,11 @@ func (b Body) src() string {
 	}
 	for _, s := range b.Stmts {
 		parts = append(parts, s.src(n))
+	}
+	if b.Factory && !b.Implicit {
+		// the literal is made by a factory that was called before with another value for the keyword default
+		head = "|i, k: d| "
+		return fmt.Sprintf("{|mk| mk(%d); mk(%d)}({|d| %s})", b.K0+5, b.K0, "<{"+head+strings.Join(parts, "; ")+"}>")
 	}
 	return fmt.Sprintf(origins[b.Origin], "<{"+head+strings.Join(parts, "; ")+"}>")
 }
@@ -169,6 +180,9 @@ func (b Body) next(m *state, c int, trace *[]string) (val V, stop bool) {
 				yielded = &v
 			}
 		case "recur":
+			if s.Guarded && !(c > s.GuardN) {
+				continue
+			}
 			m.i = cur.i + s.Step
 			if s.PassK {
 				m.k = cur.k + 1
@@ -185,6 +199,8 @@ func genBody() *rapid.Generator[Body] {
 		b := Body{K0: rapid.IntRange(1, 3).Draw(t, "k0"), Implicit: rapid.IntRange(0, 3).Draw(t, "implicit") == 0}
 		if rapid.Bool().Draw(t, "nested origin") {
 			b.Origin = rapid.IntRange(1, len(origins)-1).Draw(t, "origin")
+		} else if rapid.IntRange(0, 3).Draw(t, "factory") == 0 {
+			b.Factory = true
 		}
 		genExpr := func(l string) Expr {
 			k := rapid.SampledFrom([]string{"i", "i", "i*k+c", "i*k+c", "i+n", "k", "c", "const", "nil", "table", "table"}).Draw(t, l)
@@ -192,6 +208,9 @@ func genBody() *rapid.Generator[Body] {
 		}
 		n := rapid.IntRange(0, 6).Draw(t, "bound")
 		recur := Stmt{K: "recur", Step: rapid.IntRange(1, 2).Draw(t, "step"), PassK: rapid.Bool().Draw(t, "passk") || b.Implicit}
+		if rapid.IntRange(0, 3).Draw(t, "conditional recur") == 0 {
+			recur.Guarded, recur.GuardN = true, rapid.IntRange(0, 3).Draw(t, "recur guard")
+		}
 		first := Stmt{K: "yield", E: genExpr("e1"), Guarded: rapid.IntRange(0, 5).Draw(t, "guard1") != 0, GuardN: n}
 		stmts := []Stmt{first}
 		if rapid.IntRange(0, 2).Draw(t, "second") == 0 {
